@@ -104,11 +104,21 @@ def corr_idman(ck: Ck) -> None:
     corpus = [[('Get', -1), ('Discard', 1), ('Get', -1), ('Discard', 1), ('Get', -1)],
               [('Get', 5), ('Get', 5), ('Discard', 0), ('Get', -1), ('Get', -1)],
               [('Get', 2), ('Get', 1), ('Get', -1), ('Remove', 9), ('Discard', 2), ('Get', 0), ('Len',)]]
+    todo = []
     for i in range(n):
         ops = corpus[i] if i < len(corpus) else gen_idman_ops(ck.rng, ck.rng.choice([3, 8, 20, 45]))
         # IDMan(existing): any starting set (also non-positive members); then a sweep of __contains__ over the range
         existing = [] if i < len(corpus) or ck.rng.random() < 0.5 else [ck.rng.randint(-2, 9) for _ in range(ck.rng.choice([1, 3, 6]))]
-        ops = list(ops) + [('Contains', x) for x in range(-2, 14)] + [('Len',)]
+        todo.append((list(ops) + [('Contains', x) for x in range(-2, 14)] + [('Len',)], existing))
+    if ck.budget(0, 1):
+        # thorough tier (or a broken tie): EVERY sequence of up to 4 operations over a small alphabet, from the empty manager
+        import itertools
+        alpha = [('Get', d) for d in (-1, 0, 1, 2, 3)] + [('Discard', e) for e in (0, 1, 2, 3)] + [('Remove', 1), ('Remove', 2), ('Clear',)]
+        for length in range(5):
+            for seq in itertools.product(alpha, repeat=length):
+                todo.append((list(seq) + [('Contains', x) for x in range(0, 5)] + [('Len',)], []))
+                ck.hist('idman_exhaustive', length)
+    for ops, existing in todo:
         problems: list = []
         exp = impl_idman(ops, existing, problems)
         cases.append((ops, exp, existing))
@@ -132,7 +142,7 @@ def corr_idman(ck: Ck) -> None:
         part = cases[lo:lo + 500]
         lit = coq_list(f'(({coq_Z_list(ex)}, {coq_list(coq_op(o) for o in ops)}), {coq_Z_list(exp)})' for ops, exp, ex in part)
         exprs.append(f'bad_idx (fun c : (list Z * list op) * list Z => zl_eqb (run_res idman_lower_guard (init_from (fst (fst c))) (snd (fst c))) (snd c)) 0 {lit}')
-    res = eval_bad(ck, 'idman', PRE, exprs, per_call=4)
+    res = eval_bad(ck, 'idman', PRE, exprs, per_call=12)
     if res is None:
         ck.obligation('correspondence:idman', False, 'model could not be evaluated')
         ck.tie_broken.append('correspondence IDMan: model evaluation failed')
@@ -140,7 +150,8 @@ def corr_idman(ck: Ck) -> None:
     for c, idxs in enumerate(res):
         bad += [c * 500 + i for i in idxs]
     ck.obligation('correspondence:idman', not bad,
-                  f'{len(cases)} operation sequences, model (vm_compute) vs srctools.vmf.IDMan: {len(bad)} disagreements')
+                  f'{len(cases)} operation sequences ({n} random' + (f' + all {len(cases) - n} of length <= 4 over 12 operations' if len(cases) > n else '')
+                  + f'), model (vm_compute) vs srctools.vmf.IDMan: {len(bad)} disagreements')
     if bad:
         ops, exp, ex = min((cases[i] for i in bad), key=lambda c: len(c[0]))
         ck.tie_broken.append('correspondence IDMan (SM/IdMan.v run vs srctools.vmf.IDMan)')
@@ -199,6 +210,7 @@ _FX_COQ = {'set': 'FSet', 'setdefault': 'FSet', 'update': 'FSet', 'del': 'FDel',
 def corr_fixups(ck: Ck, require_positive: bool, defer: bool = True) -> None:
     n = ck.budget(300, 3000)
     cases = []
+    todo = []
     for i in range(n):
         rng = ck.rng
         init = [(rng.randint(0, 5), rng.choice([0, -1, 1, 1, 2, 3, 4, 7, 12])) for _ in range(rng.choice([0, 1, 3, 6]))]
@@ -215,7 +227,20 @@ def corr_fixups(ck: Ck, require_positive: bool, defer: bool = True) -> None:
                 ops.append(('rebuild', 0))
             else:
                 ops.append((rng.choice(['copy', 'deepcopy', 'pickle']), 0))
-        via_entity = rng.random() < 0.4
+        todo.append((init, ops, rng.random() < 0.4))
+    if ck.budget(0, 1):
+        # thorough tier (or a broken tie): EVERY constructor argument of up to 2 values over 2 variables x indexes {-1, 0, 1, 2}
+        # followed by EVERY sequence of up to 2 operations, and every argument of 3 values followed by at most one operation
+        import itertools
+        vals = [(v, i) for v in (0, 1) for i in (-1, 0, 1, 2)]
+        alpha = [('set', 0), ('set', 2), ('del', 0), ('del', 1), ('clear', 0), ('rebuild', 0), ('copy', 0)]
+        for n_init, n_ops in ((0, 2), (1, 2), (2, 2), (3, 1)):
+            for init_t in itertools.product(vals, repeat=n_init):
+                for k in range(n_ops + 1):
+                    for ops_t in itertools.product(alpha, repeat=k):
+                        todo.append((list(init_t), list(ops_t), False))
+                        ck.hist('fixup_exhaustive(init,ops)', (n_init, k))
+    for init, ops, via_entity in todo:
         got = run_fixup_case(init, ops, via_entity)
         cases.append((init, ops, got))
         ck.count('fixup_histories')
@@ -244,19 +269,20 @@ Fixpoint pl_eqb (a b : list (Z * Z)) : bool := match a, b with [], [] => true | 
         if o in _FX_COQ:
             return f'{_FX_COQ[o]} {v}'
         return {'clear': 'FClear', 'rebuild': 'FRebuild'}.get(o, 'FCopy')
-    bad = []
+    exprs = []
     for lo in range(0, len(cases), 500):
         part = cases[lo:lo + 500]
         lit = coq_list(f'(({pairs(i)}, {coq_list(cop(o, v) for o, v in ops)}), {pairs(g)})' for i, ops, g in part)
-        vals = ck.coq_eval(IMPORTS, [f'bad_idx (fun c : (list (Z * Z) * list fxop) * list (Z * Z) => pl_eqb (fx_run {rp} (fst c)) (snd c)) 0 {lit}'], name='fixup', preamble=pre)
-        if vals is None:
-            ck.obligation('correspondence:fixup', False, 'model could not be evaluated')
-            ck.tie_broken.append('correspondence EntityFixup: model evaluation failed')
-            return
-        from harness.common import parse_coq_N_list
-        bad += [lo + i for i in parse_coq_N_list(vals[0])]
+        exprs.append(f'bad_idx (fun c : (list (Z * Z) * list fxop) * list (Z * Z) => pl_eqb (fx_run {rp} (fst c)) (snd c)) 0 {lit}')
+    res = eval_bad(ck, 'fixup', pre, exprs, per_call=12)
+    if res is None:
+        ck.obligation('correspondence:fixup', False, 'model could not be evaluated')
+        ck.tie_broken.append('correspondence EntityFixup: model evaluation failed')
+        return
+    bad = [c * 500 + i for c, idxs in enumerate(res) for i in idxs]
     ck.obligation('correspondence:fixup', not bad,
-                  f'{len(cases)} EntityFixup histories (constructor, set/setdefault/update, del/pop, clear, rebuild via copy_values/Entity.copy, '
+                  f'{len(cases)} EntityFixup histories ({n} random' + (f' + all {len(cases) - n} small ones' if len(cases) > n else '')
+                  + ': constructor, set/setdefault/update, del/pop, clear, rebuild via copy_values/Entity.copy, '
                   f'copy/deepcopy/pickle), model fx_hist vs implementation: {len(bad)} disagreements')
     if bad:
         ck.tie_broken.append('correspondence EntityFixup (SM/IdFixupHist.v fx_hist vs srctools.vmf.EntityFixup)')
@@ -1581,7 +1607,7 @@ def _post_vis(lst):
 # ------------------------------------------------------------------------------------------------ main
 def run(ck: Ck) -> None:
     ck.rule = ('IDMan: random operation sequences over a small ID range (collisions frequent) from IDMan(existing), non-trivial = '
-               'more than 3 distinct results; lifecycle: random histories of create/copy/cross-map copy/collapse_one/remove/re-add/gc/'
+               'more than 3 distinct results (thorough: in addition every sequence of up to 4 operations over 12 operations from the empty manager); lifecycle: random histories of create/copy/cross-map copy/collapse_one/remove/re-add/gc/'
                'node edits over 7 object kinds, non-trivial = contains create and remove; world: histories over three maps of point '
                'entities, brush entities, world brushes, brush groups and visgroup trees (every object gets its events in the stream of '
                'its kind; the entity/brush/face part also runs as bundled events on top-level objects), non-trivial = '
@@ -1590,7 +1616,8 @@ def run(ck: Ck) -> None:
                'at least two of set/delete/remove; parse: generated VMF documents whose ids are drawn from a small pool with '
                'missing/0/negative/colliding values, non-trivial = at least two kinds with different desired ids; fixups: random '
                'init lists with colliding/non-positive indexes followed by set/setdefault/update, del/pop, clear, Entity.copy rebuilds and '
-               'copy/deepcopy/pickle, directly or through an Entity, non-trivial = at least two variables left; '
+               'copy/deepcopy/pickle, directly or through an Entity, non-trivial = at least two variables left (thorough: in addition every constructor '
+               'argument of up to 2 values followed by every sequence of up to 2 operations, and of 3 values followed by at most one); '
                'distinct by full sequence / text')
     ck.trusted.append('hand-written models SM/IdMan.v, SM/IdLife.v, SM/IdFixupHist.v, SM/IdWorld.v, SM/IdNest.v, SM/IdNode.v, SM/IdNodeMaps.v (tied by differential correspondence on every run)')
     ck.assumptions.append('objects are added to the map they were constructed for (VMF.add_ent docstring); Entity._keys is only written through the mapping API')
